@@ -1,11 +1,10 @@
-\* U1 (as intended): the whole life cycle. All sessions of caller and callee start attached except s4 (callee's second
-\* device: only on "me", so that acceptance from a detached session is covered); sets only shrink (leave / disconnect).
+\* U1 quick tier: as Call_U1_life.cfg with at most 2 client publishes (one call with ordinary traffic before it, or two calls).
 CONSTANTS
   Configured = TRUE
   DEV_DetachedPartyOutlivesSession = FALSE
   FIX_DetachedAcceptRefused = FALSE
   Kinds = {"Leave", "Disconnect", "Pub", "Invite", "Note", "Timeout"}
-  MaxSeq = 3
+  MaxSeq = 2
   MaxDepth = 0
   InitAtt = {"s1", "s2", "s3"}
   InitAttG = {"s1", "s5"}
